@@ -1564,7 +1564,7 @@ fn faulty_document(kind: u32, split: bool) -> (String, u32) {
         t.push_str("/begin PROJECT p \"\"\n/begin HEADER \"h\"\n/end HEADER\n/end PROJECT\n");
         return (t, 5);
     }
-    if kind >= 13 {
+    if kind >= 13 && kind <= 15 {
         // a block closed with the wrong end tag: A2ML (hand-written parser), IF_DATA, ordinary generated block
         t.push_str("/begin PROJECT p \"\"\n/begin MODULE m \"\"\n/begin MEASUREMENT ms \"\" UBYTE NO_COMPU_METHOD 0 0 0 255\n/end MEASUREMENT\n/begin UNIT u \"\" \"\" DERIVED\n");
         t.push_str(match kind {
@@ -1589,6 +1589,7 @@ fn faulty_document(kind: u32, split: bool) -> (String, u32) {
         7 => ("ADDRESS_TYPE PBYTE\n", false),              // element newer than the declared file version (1.7.0 > 1.6.0)
         8 => ("FORMAT \"%6.3\"\n", false),                 // older version, nothing wrong
         9 => ("/begin FUNCTION_LIST 1fn /end FUNCTION_LIST\n", true), // identifier starting with a digit
+        17 => ("BYTE_ORDER BIG_ENDIAN\n", true),          // enum value that is deprecated at the declared version: a notice, not a problem
         _ => ("FORMAT \"%6.3\"\n", false),
     };
     if split {
@@ -1609,7 +1610,7 @@ fn faulty_document(kind: u32, split: bool) -> (String, u32) {
 }
 
 pub(crate) fn h_strict_vs_nonstrict() {
-    let kind = vrt_choice(17);
+    let kind = vrt_choice(18);
     let split = vrt_choice(2) == 1;
     let (text, fault_line) = faulty_document(kind, split);
     let strict = load_from_string(&text, None, true);
@@ -1645,6 +1646,10 @@ pub(crate) fn h_strict_vs_nonstrict() {
     vrt_observe_bool(relaxed.is_ok());
     match kind {
         0 | 8 => vrt_check(strict.is_ok(), "C06 a valid document loads in strict mode"),
+        17 => {
+            vrt_check(strict.is_ok() && relaxed.is_ok(), "C06 a deprecated enum value does not make loading fail in either mode");
+            if let Ok((_, lr)) = &relaxed { vrt_check(lr.len() == 1 && is_deprecation(&lr[0]), "C06 a deprecated enum value is reported as a deprecation notice"); }
+        }
         1 | 2 | 3 | 7 | 9 | 10 | 11 | 12 | 13 | 14 | 15 | 16 => {
             vrt_check(strict.is_err(), "C06 strict loading rejects a recoverable problem");
             vrt_check(relaxed.is_ok(), "C06 non-strict loading recovers from a recoverable problem");
@@ -2362,7 +2367,7 @@ pub(crate) fn h_c20_documents() {
 
 /// fault kinds of the C06 family in both modes, unknown elements inside real blocks (C07 family)
 pub(crate) fn h_c20_faults() {
-    let kind = vrt_choice(17);
+    let kind = vrt_choice(18);
     let split = vrt_choice(2) == 1;
     let strict = vrt_choice(2) == 1;
     let (text, _) = faulty_document(kind, split);
